@@ -317,6 +317,9 @@ class PipeOps(FullOps):
             at = sorted(self.atoms_of(d))
             return TV(kind="pyint", poly=Poly.sym(f"len[{'+'.join(at) or '?'}]"), origin=frozenset(at), note="len")
         t = tv_of(v)
+        if t is not None and is_opaque(t) and t.note == "key" and t.axes == (Q,):
+            # len() of a tensor the caller passed (any shape, 0-d included): TypeError for a 0-d tensor
+            self.pev("len_of_key", node, origin=sorted(t.origin))
         if t is not None and is_opaque(t):
             sp = self.rows_of(t)
             if sp is not None:
@@ -1046,12 +1049,24 @@ class PipeOps(FullOps):
             args = [a if isinstance(a, tuple) else self.consume(a, node, full=strict) for a in args]
             lists = [self.to_list(a, "list", node) for a in args if not isinstance(a, tuple)]
             all_concrete = bool(lists) and all(isinstance(l, ListV) and l.items is not None for l in lists)  # known elements, paired position by position
+            if any(isinstance(a, tuple) for a in args):
+                return super().call_builtin(fn, args, kwargs, node, env)  # zip(*xs): a transposition, recorded as such by zip()
             self.pev("zip", node, orders=[(repr(l.order) if (l.items is None or l.order is not None) and not all_concrete else "(('literal-sequence',), 'same')") if isinstance(l, ListV) else "?" for l in lists],
                      in_loop=bool(self.loop_orders))
         return super().call_builtin(fn, args, kwargs, node, env)
 
     def zip(self, args, node):
         if len(args) == 1 and isinstance(args[0], tuple):
+            outer = self.to_list(args[0][1], "list", node)
+            e_ = (outer.elem if outer.items is None else (join_all(outer.items) if outer.items else None)) if isinstance(outer, ListV) else None
+            if is_opaque(e_):
+                # zip(*tensors): walks the tensors row by row in parallel — element r is the tuple of the r-th rows. Row blocks of one row (the only case the
+                # pipeline uses it for) give one tuple: the rows themselves, as `t.squeeze(0)` would
+                self.pev("zip_transpose", node, outer=repr(outer.order), inner="rows")
+                one = self.rows_of(e_) is not None and self.span_len(self.rows_of(e_)) == 1
+                row = self.tensor_method(e_, "squeeze", [Const(0)], {}, node, None) if (one or self.inst is None) else e_.but(axes=e_.axes[1:] if len(e_.axes) > 1 else (Q,), rowspan="?")
+                tup = ListV(items=None, elem=row, kind="tuple", order=outer.order, over=outer.over) if outer.items is None else ListV(items=tuple(row for _ in outer.items), kind="tuple")
+                return ListV(items=(tup,), kind="list") if one else ListV(items=None, elem=tup, kind="list", order=(("rows",), "same"))
             return super().zip(args, node)  # zip(*rows)
         lists = [self.to_list(a, "list", node) for a in args]
         if all(isinstance(l, ListV) and l.items is None and l.order is not None for l in lists) and lists:
